@@ -5,7 +5,7 @@ From BWP Require Import TextFacts Keys_proofs C01_proofs Run_proofs Merge_proofs
 From Coq Require Import Permutation.
 From BW Require Import Main.
 From BWGen Require Import ExtTable.
-From BWP Require Import Main_proofs.
+From BWP Require Import Main_proofs MainCompose_proofs.
 
 (* The active validators: the enabled ones if any are given, otherwise all but the disabled ones. *)
 Theorem C14_active : forall en dis v,
@@ -85,3 +85,31 @@ Theorem C14_accepted_run_is_the_modelled_run : forall a p fs tb cd, plan_of a = 
   main_model a fs tb cd = MRun (model_run (rcase_of p (map (effective_file a) fs) tb cd)).
 Proof. exact main_run_is_model_run. Qed.
 Print Assumptions C14_accepted_run_is_the_modelled_run.
+
+(* Through main: the run with -d values (typed before any subcommand) reports exactly the unrestricted run's diagnostics whose validator is not disabled. *)
+Theorem C14_process_disable_exact : forall a a0 p p0 ms tb cd,
+  plan_of a = Ok p -> plan_of a0 = Ok p0 -> same_but_validator_flags a a0 ->
+  ca_list a = false -> ca_list a0 = false ->
+  ca_dis_pre a0 = [] -> ca_dis_post a0 = [] -> ca_dis_post a = [] ->
+  ca_en_pre a = [] -> ca_en_post a = [] -> ca_en_pre a0 = [] -> ca_en_post a0 = [] ->
+  exists dis v v0,
+    map_opt parse_validator (ca_dis_pre a) = Some dis /\
+    main_model a ms tb cd = MRun v /\ main_model a0 ms tb cd = MRun v0 /\
+    Permutation (vr_diags v)
+      (filter (fun pd => negb (existsb (N.eqb (d_code (snd pd))) dis)) (vr_diags v0)).
+Proof. exact main_disable_removes_exactly. Qed.
+Print Assumptions C14_process_disable_exact.
+
+(* Through main: the run with -e values reports exactly the unrestricted run's diagnostics of the enabled validators. *)
+Theorem C14_process_enable_exact : forall a a0 p p0 ms tb cd,
+  plan_of a = Ok p -> plan_of a0 = Ok p0 -> same_but_validator_flags a a0 ->
+  ca_list a = false -> ca_list a0 = false ->
+  ca_en_pre a <> [] -> ca_en_post a = [] -> ca_dis_pre a = [] -> ca_dis_post a = [] ->
+  ca_en_pre a0 = [] -> ca_en_post a0 = [] -> ca_dis_pre a0 = [] -> ca_dis_post a0 = [] ->
+  exists en v v0,
+    map_opt parse_validator (ca_en_pre a) = Some en /\
+    main_model a ms tb cd = MRun v /\ main_model a0 ms tb cd = MRun v0 /\
+    Permutation (vr_diags v)
+      (filter (fun pd => existsb (N.eqb (d_code (snd pd))) en) (vr_diags v0)).
+Proof. exact main_enable_keeps_exactly. Qed.
+Print Assumptions C14_process_enable_exact.
